@@ -163,6 +163,14 @@ if (($ENV{CONTENT_LENGTH} || 0) > 0) { read(STDIN, $body, $ENV{CONTENT_LENGTH});
 print "Content-Type: text/plain\r\n\r\nok\n";
 '''
 
+SLOW_PL = r'''#!/usr/bin/perl
+select(undef, undef, undef, 0.7);
+print "Content-Type: text/plain\r\n\r\nslow\n";
+'''
+
+PIPE_N = 116
+PIPE_FILES = {"deep/%03d.txt" % i: b"deep-file-%03d\n" % i for i in range(PIPE_N)}
+
 SSI_PAGE = ('<html><!--#echo var="REQUEST_URI"-->|<!--#echo var="QUERY_STRING"-->|'
             '<!--#echo var="HTTP_X_PROBE"-->|<!--#echo var="REQUEST_METHOD"--></html>\n')
 
@@ -198,6 +206,7 @@ SITE_FILES = {
     "auth/secret.txt": b"the secret\n",
     "cgi/env.pl": ENV_PL.encode(),
     "cgi/sink.pl": SINK_PL.encode(),
+    "cgi/slow.pl": SLOW_PL.encode(),
     "h10/k.txt": b"answered as HTTP/1.0\n",
     "ssi/page.shtml": SSI_PAGE.encode(),
     "eh/present.txt": b"present\n",
@@ -219,6 +228,8 @@ def build_site(srv):
         if rel.endswith(".pl"):
             os.chmod(p, 0o755)
     for rel, data in SITE_FILES.items():
+        put(srv.docroot, rel, data)
+    for rel, data in PIPE_FILES.items():
         put(srv.docroot, rel, data)
     for rel, data in VHOST_FILES.items():
         put(os.path.join(srv.root, "vhost"), rel, data)
@@ -420,8 +431,9 @@ BODY_BIG = 60000     # < 65535: fits the initial HTTP/2 stream window
 
 
 class H1Client:
-    def __init__(self, port):
-        self.s = socket.create_connection(("127.0.0.1", port), timeout=5)
+    def __init__(self, port, src=None):
+        self.s = socket.create_connection(("127.0.0.1", port), timeout=5,
+                                          **({"source_address": (src, 0)} if src else {}))
         self.s.setsockopt(socket.IPPROTO_TCP, socket.TCP_NODELAY, 1)
         self.buf = b""
         self.closed = False
@@ -1659,6 +1671,130 @@ def cold_job(bd, items):
     return out
 
 
+def deep_pipeline(srv, rng):
+    """>= 110 KiB of pipelined requests written while the server is busy with a slow first request (so that
+    they wait, unprocessed, in the server's read buffer); every answer is compared with the answer to the
+    same bytes sent alone on a fresh connection.  Returns (number compared, list of problems)."""
+    reqs = []
+    for i in range(PIPE_N):
+        r = rng.random()
+        if r < 0.72:
+            q = Req("GET", "/deep/%03d.txt" % i)
+        elif r < 0.8:
+            q = Req("HEAD", "/deep/%03d.txt" % i)
+        elif r < 0.88:
+            q = Req("GET", "/deep/missing-%03d" % i)
+        elif r < 0.94:
+            q = Req("GET", "/files/b.txt?n=%d" % i, [("X-Variant", "b")])
+        else:
+            q = Req("GET", "/deep/%03d.txt" % i, [("If-None-Match", "\"none-%d\"" % i)])
+        q.headers.append(("X-Pad", "a" * max(1, rng.choice([1024, 1024, 1024, 960, 1100]) - len(q.h1(1)) - 9)))
+        reqs.append(q)
+    refs = []
+    for q in reqs:
+        c = H1Client(srv.port)
+        try:
+            c.heads.append(q.is_head())
+            c.send(q.h1(1))
+            rs, err = c.read(1)
+            refs.append(obs_key(h1_obs(rs[0], srv)) if rs else None)
+        finally:
+            c.close()
+    slow = Req("GET", "/cgi/slow.pl")
+    c = H1Client(srv.port)
+    problems = []
+    try:
+        c.s.setsockopt(socket.SOL_SOCKET, socket.SO_SNDBUF, 1 << 20)
+        c.heads = [False] + [q.is_head() for q in reqs]
+        c.send(slow.h1(1))
+        time.sleep(0.25)
+        c.send(b"".join(q.h1(1) for q in reqs))
+        rs, err = c.read(1 + len(reqs), timeout=25.0)
+    finally:
+        c.close()
+    if len(rs) < 1 or rs[0]["status"] != 200 or rs[0]["body"] != b"slow\n":
+        return 0, []                       # the slow request itself failed: inconclusive, not a verdict
+    n = 0
+    off = 0
+    for i, q in enumerate(reqs):
+        got = obs_key(h1_obs(rs[1 + i], srv)) if 1 + i < len(rs) else None
+        if refs[i] is not None:
+            n += 1
+            if got != refs[i]:
+                a = h1_obs(rs[1 + i], srv) if 1 + i < len(rs) else None
+                problems.append({"index": i, "offset": off, "request": q.tag,
+                                 "alone": repr(refs[i])[:300], "pipelined": repr(got)[:300],
+                                 "status": a["status"] if a else None})
+        off += len(q.h1(1))
+    return n, problems
+
+
+def source_addresses(srv, rng):
+    """clients from several 127.0.0.0/8 source addresses (more than the server caches, text lengths going
+    up and down); the CGI environment of each request must name the client that sent it, and must be the
+    same every time that client asks.  Returns (number compared, problems) or None if binding is impossible."""
+    short = ["127.0.0.%d" % rng.randrange(2, 10) for _ in range(3)]
+    mid = ["127.0.0.%d" % rng.randrange(10, 100) for _ in range(3)]
+    long_ = ["127.0.0.%d" % rng.randrange(100, 255) for _ in range(4)] + ["127.100.%d.200" % rng.randrange(100, 255)]
+    visits = []
+    for _ in range(2):
+        a = rng.choice(short)
+        visits += [a] + rng.sample(long_, 4) + [a, a] + rng.sample(mid, 2) + rng.sample(long_, 3) + [rng.choice(mid)] * 2 + [a]
+    visits += [rng.choice(short + mid + long_) for _ in range(8)]
+    first = {}
+    problems = []
+    n = 0
+    q = Req("GET", "/cgi/env.pl?who=addr")
+    for vi, src in enumerate(visits):
+        try:
+            c = H1Client(srv.port, src=src)
+        except OSError as ex:
+            if vi == 0:
+                return None
+            problems.append({"visit": vi, "src": src, "problem": "connect failed: %r" % (ex,)})
+            continue
+        try:
+            c.heads.append(False)
+            c.send(q.h1(1))
+            rs, err = c.read(1)
+        finally:
+            c.close()
+        if not rs:
+            continue
+        env = norm_body(rs[0]["body"], srv)
+        if not isinstance(env, dict):
+            continue
+        n += 1
+        if env.get("REMOTE_ADDR") != src:
+            problems.append({"visit": vi, "src": src, "history": visits[:vi], "key": "REMOTE_ADDR",
+                             "problem": "REMOTE_ADDR=%s for a client connecting from %s" % (env.get("REMOTE_ADDR"), src)})
+        elif src in first and first[src] != env:
+            ks = sorted(k for k in set(env) | set(first[src]) if env.get(k) != first[src].get(k))
+            problems.append({"visit": vi, "src": src, "history": visits[:vi], "key": "+".join(ks)[:60],
+                             "problem": "environment differs from this client's first request: %s" % ks})
+        first.setdefault(src, env)
+    return n, problems
+
+
+def wide_job(bd, seed):
+    """own server: deep pipeline, client source addresses"""
+    import random, shutil
+    rng = random.Random(seed)
+    res = {"pipe": None, "addr": None, "san": None, "error": None, "seed": seed}
+    srv = new_server(bd)
+    try:
+        with srv:
+            res["pipe"] = deep_pipeline(srv, rng)
+            res["addr"] = source_addresses(srv, rng)
+        res["san"] = srv.sanitizer_report()
+    except Exception as ex:
+        import traceback
+        res["error"] = "%r\n%s" % (ex, traceback.format_exc())
+    finally:
+        shutil.rmtree(srv.root, ignore_errors=True)
+    return res
+
+
 def server_job(bd, jobs, seqs, quick):
     """one server process: references for every probe, then its shard of cases and of modelled sequences;
     a server that never answered anything (start-up lost to machine load) is started once more"""
@@ -1732,6 +1868,44 @@ def gen_sequences(ctx):
     return seqs
 
 
+def evaluate_wide(ctx, wide):
+    if wide["error"]:
+        wide = dict(wide, pipe=None, addr=None)       # (server start lost to load: inconclusive)
+        ctx.dist["wide:server-error"] += 1
+    if wide.get("san"):
+        ctx.violation("e2e:sanitizer:wide", "sanitizer / assertion report from lighttpd during the deep-pipeline / "
+                      "source-address stream", {"property": ctx.pid, "kind": "sanitizer-or-crash",
+                                                "correspondence": "e2e-wide", "report": wide["san"][-3000:]}, found=True)
+    n, probs = wide["pipe"] or (0, [])
+    ctx.evaluations += n
+    if probs:
+        p = probs[0]
+        ctx.violation("e2e:deep-pipeline:status-%s" % p["status"],
+                      "a pipelined request behind %d octets of earlier pipelined requests is not answered like the same "
+                      "request alone (%d of %d differ; first: #%d %s: alone %s / pipelined %s)" % (
+                          p["offset"], len(probs), n, p["index"], p["request"], p["alone"][:160], p["pipelined"][:160]),
+                      {"property": ctx.pid, "kind": "e2e-wide", "stream": "deep-pipeline", "first": p, "count": len(probs),
+                       "seed": wide.get("seed")})
+    ctx.streams.append({"name": "e2e-deep-pipeline(real server)", "cases": n, "differing": len(probs)})
+    if wide["addr"] is None:
+        ctx.dist["wide:source-address-bind-impossible-or-skipped"] += 1
+        ctx.streams.append({"name": "e2e-source-addresses(real server)", "cases": 0, "note": "not run"})
+    else:
+        n, probs = wide["addr"]
+        ctx.evaluations += n
+        seen = set()
+        for p in probs:
+            k = p.get("key", "connect")
+            if k in seen:
+                continue
+            seen.add(k)
+            ctx.violation("e2e:source-address:%s" % k, "the CGI environment depends on connections made by OTHER clients: "
+                          + p["problem"] + " (after clients %s)" % ", ".join(p.get("history", [])[-6:]),
+                          {"property": ctx.pid, "kind": "e2e-wide", "stream": "source-addresses", "first": p,
+                           "seed": wide.get("seed")})
+        ctx.streams.append({"name": "e2e-source-addresses(real server)", "cases": n, "problems": len(probs)})
+
+
 def run_e2e(ctx):
     bd, err = e2e.build_server()
     if bd is None:
@@ -1746,9 +1920,12 @@ def run_e2e(ctx):
     cold_items = [(pi, 1) for pi in range(len(PROBES))]
     if not ctx.quick:
         cold_items += [(pi, v) for pi in range(len(PROBES)) for v in (0, 2)]
-    with ThreadPoolExecutor(nsrv) as ex:
+    with ThreadPoolExecutor(nsrv + 1) as ex:
+        wide_f = ex.submit(wide_job, bd, ctx.rng.randrange(1 << 30))
         results = list(ex.map(lambda a: server_job(bd, a[0], a[1], ctx.quick), zip(shards, sshards)))
         colds = [x for part in ex.map(lambda it: cold_job(bd, it), [cold_items[i::nsrv] for i in range(nsrv)]) for x in part]
+        wide = wide_f.result()
+    evaluate_wide(ctx, wide)
     ncase = nun = nhist_sig = 0
     seen_sig = set()
     for si, res in enumerate(results):
@@ -1984,6 +2161,15 @@ def replay(ctx, path):
     if kind in ("correspondence", "property-oracle", "sanitizer-or-crash") and str(rep.get("input", "")).startswith(("rst", "rp")):
         ctx.lean(())
         return replay_line(ctx, rep)
+    if kind == "e2e-wide":
+        bd, err = e2e.build_server()
+        wide = wide_job(bd, rep.get("seed", 1))
+        print("deep pipeline:", wide["pipe"] and (wide["pipe"][0], wide["pipe"][1][:2]))
+        print("source addresses:", wide["addr"] and (wide["addr"][0], wide["addr"][1][:2]), wide["error"] or "")
+        if (wide["pipe"] and wide["pipe"][1]) or (wide["addr"] and wide["addr"][1]):
+            print("VIOLATION property=%s replay=(replayed)" % ctx.pid)
+            return 1
+        return 0
     if kind == "e2e-cold":
         bd, err = e2e.build_server()
         q = PROBES[rep["probe_idx"]]
